@@ -4,6 +4,7 @@ Statements only; helper lemmas live in `Lemmas/`.
 -/
 import EnumToolsModel.Lemmas.Scan
 import EnumToolsModel.Lemmas.Examples
+import EnumToolsModel.Lemmas.TemplatesEq
 namespace ET.Thm
 
 /-- `try_from(n)` is `Some(variant with discriminant n)` when one exists and `None` otherwise — for
@@ -67,5 +68,18 @@ theorem C01_partial_inverse (D : Derive) (h : D.WF) (n e : Int) (he : tryFromFn 
 /-- the hypotheses are satisfiable: a signed enum with three runs, a negative later run and a run at the type's MAX -/
 example : exD1.WF ∧ tryFromFn exD1 (-5) = .ok (some (-5)) ∧ tryFromFn exD1 (-6) = .ok none := by
   refine ⟨exD1_WF, by decide, by decide⟩
+
+/-! ### the same statements about the function bodies translated from /repo/src (`Generated/Templates.lean`) -/
+
+/-- `try_from(n)` / `TryFrom::try_from(n)` as the source is written now, for every value `n` of the repr type -/
+theorem C01_source_tryFrom (D : Derive) (tg : Target) (md : Modes) (h : D.WF) (n : Int) (hn : D.repr.InRange n) :
+    T.tryFromFn D tg md n = .ok (spec.tryFrom D.sem n) ∧ T.tryFromTrait D tg md n = .ok (spec.tryFrom D.sem n) :=
+  ⟨by rw [T.tryFromFn_eq D tg md h n hn]; exact C01_tryFromFn D h n,
+   by rw [T.tryFromTrait_eq D tg md h n hn]; exact C01_tryFromTrait D h n⟩
+
+/-- `into(v)` / `R::from(v)` as the source is written now -/
+theorem C01_source_into (D : Derive) (tg : Target) (md : Modes) (h : D.WF) (v : Int) (hv : v ∈ D.vals) :
+    T.intoFn D tg md v = .ok (spec.into D.sem v) ∧ T.intoTrait D tg md v = .ok (spec.into D.sem v) :=
+  ⟨by rw [T.intoFn_eq D tg md h v hv, (C01_into D v).1], by rw [T.intoTrait_eq D tg md h v hv, (C01_into D v).2]⟩
 
 end ET.Thm
